@@ -168,6 +168,8 @@ Definition ent_of_arg (a : bytes) : bytes * ekind :=
   | 76%nat :: 68%nat :: 58%nat :: n => (n, KLinkDir)    (* LD: *)
   | 76%nat :: 83%nat :: 58%nat :: n => (n, KLinkFile)   (* LS: link to a special file: not a directory *)
   | 76%nat :: 88%nat :: 58%nat :: n => (n, KLinkDangling) (* LX: *)
+  | 76%nat :: 76%nat :: 58%nat :: n => (n, KLinkDangling) (* LL: a link to itself (ELOOP): Stat fails *)
+  | 76%nat :: 78%nat :: 58%nat :: n => (n, KLinkDangling) (* LN: a link below a regular file (ENOTDIR): Stat fails *)
   | _ => (a, KFile)
   end.
 
